@@ -1,4 +1,7 @@
 """C15 connection IDs and peer address migration: theorems Properties/C15.v + correspondence of
+(a'), inside (b): Rrc/C15Newest.v (per-epoch replay windows + Conn.newestRecord + remote epoch) decides
+    which record is "the newest"; stale records (late first record of an epoch, record of a superseded
+    epoch) arriving from a new address must not start a challenge,
 (a) Rrc/C15Manager.v with rrc.Manager driven in-package under synctest virtual time (step by step,
     with dumps of the paths map),
 (b) Rrc/C15Conn.v with real connections in the scripted lab (source-address rewrites, replays, stale
@@ -281,7 +284,9 @@ def monitor_listener(c):
 def listener_terms(c):
     def sbytes(x):
         return clist(["%d" % b for b in x.encode()])
-    table = ["(%s, %d)" % (hexlist(cid), k) for k, cid in enumerate(c["cids"])]
+    # an ID is in the listener's table only if cidConnIdentifier learnt it from what the connection wrote
+    # (Rrc/C15Router.v learned / table_after; compared separately by learn_ok)
+    table = ["(%s, %d)" % (hexlist(cid), k) for k, cid in enumerate(c["cids"]) if c["learned"][k] == cid]
     # tracked source addresses (a connection keeps its entry until it writes elsewhere; irrelevant
     # for records whose ID is registered - that is the theorem - and harmless for the others)
     table += ["(%s, %d)" % (sbytes(a), k) for k, a in enumerate(c["addrs"])]
@@ -290,6 +295,31 @@ def listener_terms(c):
         owner = 99 if o["op"] == "unknown" else o["x"]
         obs = "None" if o["reader"] < 0 else "(Some %d)" % o["reader"]
         out.append("(%s, %s, %s, %d, %s)" % (clist(table), sbytes(o["src"]), hexlist(o["cid"]), owner, obs))
+    return out
+
+
+K_C15_1_SITE = "connection_id.go cidConnIdentifier / internal/net/udp/packet_conn.go listener.getConn"
+K_C15_1_SIG = {"monitor": "cid-record-from-other-address-not-delivered", "serverhello": "fragmented"}
+
+
+def listener_known_gap(c, m):
+    """K-C15-1: the monitor's complaint is about a connection whose ServerHello left in fragments, so that
+    the listener never learnt its ID"""
+    if not m or "was not delivered to connection" not in m:
+        return False
+    g = re.match(r"op (\d+):", m)
+    x = c["ops"][int(g.group(1))]["x"]
+    return c["sh_frag"][x] and c["learned"][x] is None
+
+
+def learn_terms(c):
+    out = []
+    for k, ws in enumerate(c["writes"]):
+        recs = ["(mkFR %s %d %d %d %s)" % (cbool(w["sh"]), w["off"], w["flen"], w["tlen"],
+                                            "None" if w["cid"] is None else "(Some %s)" % hexlist(w["cid"]))
+                for w in ws]
+        obs = "None" if c["learned"][k] is None else "(Some %s)" % hexlist(c["learned"][k])
+        out.append("(%s, %s)" % (clist(recs), obs))
     return out
 
 
@@ -409,7 +439,7 @@ def run(chk):
                 m = monitor_e2e(usable[i])
                 chk.finding("conn.go handleIncomingPacket / connection_id.go / internal/rrc",
                             {"monitor": "model-mismatch", "neg": usable[i]["neg"]},
-                            "observations differ from Rrc/C15Conn.v" + (": " + m if m else ""),
+                            "observations differ from Rrc/C15Conn.v + Rrc/C15Newest.v" + (": " + m if m else ""),
                             {"how": how_e2e, "case": usable[i], "correspondence": "Rrc.C15Run.e2e_ok"},
                             no_input=(m is None and not found_input))
         nt = [c for c in usable if e2e_nontrivial(c)]
@@ -431,6 +461,15 @@ def run(chk):
                      responses_sent=sum(1 for c in e2e for s in c["steps"] for e in s["emits"] if e["type"] == "resp"),
                      responses_delivered=sum(1 for c in e2e for s in c["steps"] if s.get("rkind") == "resp"),
                      tampered_cid_delivered=sum(1 for c in e2e for s in c["steps"] if s.get("tamper")),
+                     remote_epoch_changes=sum(1 for c in e2e for a, b in zip(
+                         [c["repoch0"]] + [s["repoch"] for s in c["steps"]], [s["repoch"] for s in c["steps"]]) if b != a),
+                     old_epoch_records_delivered=sum(1 for c in e2e for i, s in enumerate(c["steps"])
+                                                     if s["op"] == "deliver" and s["epoch"] < (
+                                                         c["steps"][i - 1]["repoch"] if i else c["repoch0"])),
+                     late_first_records_delivered=sum(1 for c in e2e for s in c["steps"]
+                                                      if s["op"] == "deliver" and s["seq"] == 0 and not s.get("tamper")
+                                                      and [s["epoch"], 0] not in c["pre"]),
+                     directed_stale_cases=sum(1 for c in e2e if "stale0" in c["variant"] or "oldepoch" in c["variant"]),
                      cid_length_pairs=sorted({(c["len_eut"], c["len_peer"]) for c in e2e}),
                      not_negotiated=sum(1 for c in e2e if not c["neg"]))
 
@@ -485,13 +524,29 @@ def run(chk):
             found_input = True
         else:
             chk.broken("correspondence harness TestVerifC15Listener no longer runs against /repo (%s)" % kind, o)
-    how_l = ("listenWithConfig on 127.0.0.1 with RandomCIDGenerator(8); clients 0..n-1 each on their own UDP socket "
-             "(`addrs`), server connection IDs `cids`; each op sends one fresh application record made with client "
+    how_l = ("listenWithConfig on 127.0.0.1 with RandomCIDGenerator(`cid_len`) and server MTU `mtu` (0 = default); "
+             "clients 0..n-1 each on their own UDP socket (`addrs`), server connection IDs `cids`; `writes` = first "
+             "record of every datagram the server wrote during each handshake [ServerHello?, fragment offset, "
+             "fragment length, message length, connection_id of the message], `learned` = the ID cidConnIdentifier "
+             "yields over them, `sh_frag` = the ServerHello left in fragments; each op sends one fresh application "
+             "record made with client "
              "x's keys to the listener from socket `src` (own = x's socket, fromother = client y's socket, "
              "fresh/rebind = new socket, unknown = connection ID altered); `readers` = server connections whose "
              "Read returned the payload, `raddrs` = RemoteAddr() of every server connection afterwards")
+    known_gap_cases = 0
     for c in lst:
         m = monitor_listener(c)
+        if m and listener_known_gap(c, m):
+            # KNOWN GAP K-C15-1 (stable site/signature; one report per run)
+            known_gap_cases += 1
+            if known_gap_cases == 1:
+                found_input = True
+                chk.finding(K_C15_1_SITE, K_C15_1_SIG,
+                            "the listener never learnt the connection ID because the ServerHello left in fragments "
+                            "(variant %s): %s" % (c["variant"], m),
+                            {"how": how_l, "case": c,
+                             "rerun": "VERIF_SEED=%d bin/check C15 --tier %s" % (chk.seed, chk.tier)})
+            continue
         if m:
             found_input = True
             chk.finding("internal/net/udp/packet_conn.go listener.getConn",
@@ -518,6 +573,20 @@ def run(chk):
                             "routing decision differs from Rrc/C15Router.v get_conn_id" + (": " + m if m else ""),
                             {"how": how_l, "case": c, "correspondence": "Rrc.C15Run.listener_ok"},
                             no_input=(m is None and not found_input))
+        lterms, lown = [], []
+        for ci, c in enumerate(usable):
+            for t in learn_terms(c):
+                lterms.append(t)
+                lown.append(ci)
+        bad, err = vlib.coq_mismatches("c15k", IMPORTS, "learn_case", "learn_ok", lterms, shard=60)
+        if bad is None:
+            chk.broken("correspondence evaluation (listener learning) failed in coqc", err)
+        else:
+            for i in bad[:1]:
+                chk.finding("connection_id.go cidConnIdentifier", {"monitor": "model-mismatch", "variant": usable[lown[i]]["variant"]},
+                            "the ID cidConnIdentifier learns from the written datagrams differs from Rrc/C15Router.v learned",
+                            {"how": how_l, "case": usable[lown[i]], "correspondence": "Rrc.C15Run.learn_ok"},
+                            no_input=not found_input)
         nt = [c for c in usable if any(o["op"] == "fromother" for o in c["ops"])]
         chk.count("listener", len(terms), [(c["variant"], len(c["cids"]), tuple((o["op"], o["x"], o["y"]) for o in c["ops"]))
                                            for c in nt],
@@ -527,7 +596,12 @@ def run(chk):
         chk.leg_info("listener", listeners=len(lst),
                      from_other_connections_address=sum(1 for c in lst for o in c["ops"] if o["op"] == "fromother"),
                      rebinds=sum(1 for c in lst for o in c["ops"] if o["op"] == "rebind" and o["rebound"]),
-                     unknown_id=sum(1 for c in lst for o in c["ops"] if o["op"] == "unknown"))
+                     unknown_id=sum(1 for c in lst for o in c["ops"] if o["op"] == "unknown"),
+                     variants=sorted({c["variant"] for c in lst}),
+                     handshakes_described=len(lterms),
+                     serverhello_fragmented=sum(1 for c in lst for f in c["sh_frag"] if f),
+                     id_never_learnt=sum(1 for c in lst for x in c["learned"] if x is None),
+                     known_gap_cases=known_gap_cases)
 
     if not proved:
         where, out = getattr(chk, "proof_error", ("?", ""))
@@ -541,14 +615,21 @@ def run(chk):
              "non-trivial = some Reserve/response accepted and some refused and a clock jump; distinct by the full op "
              "sequence. e2e: real handshakes (DTLS 1.2 PSK GCM/CCM8/CBC, DTLS 1.3 certificate) for ID-generator length "
              "pairs {0,1,4,8}^2 plus none/120, both roles, also IDs-without-RRC; scripted source addresses, replays, "
-             "stale records, two candidates, late/misdirected/stale responses, altered or missing connection IDs; "
+             "stale records, two candidates, late/misdirected/stale responses, altered or missing connection IDs; records "
+             "are (epoch, sequence number): protected records of the handshake that were never delivered stay in the "
+             "pool, the DTLS 1.3 peer updates its keys inside random scripts, and directed stale scenarios (first "
+             "datagram of the application epoch withheld during the handshake - 1.3 first epoch-3 record, 1.2 first "
+             "transmission of the Finished -; record of the epoch superseded by a key update) deliver the stale record "
+             "from a new address after newer ones, with a really newest record from there as positive control; "
              "non-trivial = at least one RRC record emitted and one record from a non-active address that caused "
              "none; distinct by configuration and full script. router: generated record lists incl. bad versions and "
              "truncation; non-trivial = an ID found behind at least one skipped record. listener: real listenWithConfig "
              "over loopback UDP, 2-3 clients, fresh records of connection x sent from its own socket / another live "
              "client's socket / a new socket (with and without answering the challenge) / with an altered ID, every "
              "session pinged after every op; one evaluation per routed record; non-trivial = contains a record sent "
-             "from another live connection's address.",
+             "from another live connection's address; plus server ID lengths 16/20 (1.3) and 20 (1.2) at the default "
+             "MTU and MTU 64 (1.2), each with a record from a brand-new address, and for every handshake the first "
+             "records of the datagrams the server wrote vs the ID cidConnIdentifier learns (Rrc/C15Router.v learned).",
         assumptions=[
             "an ERecord event of Rrc/C15Conn.v is a record for which conn.go prepareIncomingPacket succeeded; that only "
             "the key holder can produce such records is C05 (AEAD) and not re-proved here",
@@ -559,6 +640,12 @@ def run(chk):
             "time is an explicit clock argument; the per-path AfterFunc callback is an explicit operation that may run at "
             "any time (theorems hold for every scheduling); synctest runs callbacks exactly at expiry, which is what the "
             "harness compares against",
+            "which records raise the endpoint's remote epoch (ChangeCipherSpec, KeyUpdate) is not modelled: the remote "
+            "epoch observed after each step is an input of Rrc/C15Newest.v (it only grows); the theorems hold for every "
+            "such sequence",
+            "the listener's table contains a connection ID only if cidConnIdentifier learnt it (explicit premise of "
+            "C15_listener_routes_to_cid_owner); that it is NOT learnt from a fragmented ServerHello is known finding "
+            "K-C15-1 (C15_listener_routes_negotiated_id_refuted)",
             "listener.getConn's lookup order (routed ID first, then source address) is Rrc/C15Router.v get_conn_id, tied "
             "to a real loopback listener with 2-3 live connections (DTLS 1.2 and 1.3) through who Reads each record; "
             "cidDatagramRouter's DTLS 1.2 branch is tied byte-level, the 1.3 branch only through that listener leg; the "
